@@ -530,6 +530,9 @@ def run(ctx):
 
     # correspondence with the Lean bookkeeping model (driver command), see props/corr_models.py
     check.pmap(ctx, 'props.corr_models', 'one_cache', list(range(16 if q else 120)), case_timeout=300)
+    # ... and with the Lean model of the distribution-level memoisation (PGModel/Memo.lean, driver command `memo`): hit/miss
+    # pattern of functools.cache / cached_property and every answer against a fresh object
+    check.pmap(ctx, 'props.corr_models', 'one_memo', list(range(16 if q else 160)), case_timeout=600)
     # the pool comparison runs in this process (a pool inside a pool worker is not allowed), one after the other
     pg = C.import_phasegen()
     for i, c in enumerate(pool_cases(q, None)):
